@@ -48,8 +48,13 @@ func genC13(t *rapid.T) c13Case {
 	c.TLS = rapid.IntRange(0, 2).Draw(t, "tls") == 0
 	n := rapid.IntRange(1, 3).Draw(t, "nloss")
 	for i := 0; i < n; i++ {
+		ends := []string{"reset", "close", "close", "streamclose", "streamerror"}
+		if c.KeepaliveMs > 0 {
+			// a reset makes reads and writes fail at the same moment: the keepalive may notice the loss first
+			ends = []string{"reset", "reset", "reset", "close", "streamclose", "streamerror"}
+		}
 		l := c13Loss{
-			End:    rapid.SampledFrom([]string{"reset", "close", "close", "streamclose", "streamerror"}).Draw(t, "end"),
+			End:    rapid.SampledFrom(ends).Draw(t, "end"),
 			After:  rapid.IntRange(0, 3).Draw(t, "after"),
 			Resume: rapid.Bool().Draw(t, "resume"),
 		}
@@ -347,6 +352,24 @@ func runC13(c c13Case) vh.Result {
 			res.Fail("two-sessions", "%s: after %s a second session was established", desc, label)
 		}
 	}
+	if c.KeepaliveMs > 0 && c.Permanent == "" && len(res.Violations) == 0 {
+		// With keepalives falling into the losses, a keepalive of an ended session may have been on its way to close
+		// the transport when the session ended; Transport.Close waits up to ConnectTimeout (1 s here) before it closes.
+		// The last session must outlive that: nothing left over from its predecessors may end it.
+		res.Label("held-past-close-timeout")
+		mu.Lock()
+		before := accepted
+		mu.Unlock()
+		time.Sleep(1300 * time.Millisecond)
+		mu.Lock()
+		after := accepted
+		mu.Unlock()
+		if after != before {
+			res.Fail("session-ended-by-predecessor", "%s: the last session was left alone for 1.3 s, yet %d more connections reached the server (the client gave the session up on its own)", desc, after-before)
+		} else if !exercise(cur, 0, "held") {
+			return res
+		}
+	}
 	pcMu.Lock()
 	gotPost := postConnects
 	pcMu.Unlock()
@@ -379,7 +402,7 @@ func runC13(c c13Case) vh.Result {
 
 var c13 = vh.Define(&vh.Def[c13Case]{
 	Property: "C13", Name: "streammanager",
-	Rule: "fault sequences of 1-3 losses on successive connections of a Client under StreamManager.Run (keepalive interval 2-40 ms in a third of the sequences, so that keepalives fall into the time spent reconnecting; 30 s otherwise; every connection over STARTTLS with the client insisting on it in a third): each loss = how the established connection ends (TCP reset, graceful TCP close, </stream:stream> from the server, a system-shutdown stream error followed by the stream end) after 0-3 stanzas in each direction x the server refusing connections for 0 or 10-150 ms (listener closed, later reopened on the same port) x 0-3 reconnection attempts that fail during negotiation (connection cut at stream open / auth / bind) x resumption confirmed or refused; optionally the last reconnection is rejected with a SASL failure (permanent), or Stop is called while the manager is still reconnecting against a server that is down; oracle on the peer's accept log and sessions: after each loss exactly one further session is established (resumed when the server confirms), exactly failing-attempts+1 connections reach the server, the new session receives and sends, PostConnect ran once per session, after the permanent error no further attempt is made within 600 ms, Stop makes Run return; non-trivial = at least one loss after establishment",
+	Rule: "fault sequences of 1-3 losses on successive connections of a Client under StreamManager.Run (keepalive interval 2-40 ms in a third of the sequences, so that keepalives fall into the time spent reconnecting; 30 s otherwise, and with the short interval the last session is held for 1.3 s - longer than Transport.Close waits - and must still be the same and working; every connection over STARTTLS with the client insisting on it in a third): each loss = how the established connection ends (TCP reset, graceful TCP close, </stream:stream> from the server, a system-shutdown stream error followed by the stream end) after 0-3 stanzas in each direction x the server refusing connections for 0 or 10-150 ms (listener closed, later reopened on the same port) x 0-3 reconnection attempts that fail during negotiation (connection cut at stream open / auth / bind) x resumption confirmed or refused; optionally the last reconnection is rejected with a SASL failure (permanent), or Stop is called while the manager is still reconnecting against a server that is down; oracle on the peer's accept log and sessions: after each loss exactly one further session is established (resumed when the server confirms), exactly failing-attempts+1 connections reach the server, the new session receives and sends, PostConnect ran once per session, after the permanent error no further attempt is made within 600 ms, Stop makes Run return; non-trivial = at least one loss after establishment",
 	Quick: 64, Thorough: 2500, Journal: true,
 	Gen: genC13, Run: runC13,
 })
